@@ -31,10 +31,17 @@ print(c)")
   pkgs=$(git -C $wt diff --name-only | xargs -n1 dirname | sort -u | sed 's|^|./|' | tr '\n' ' ')
   (cd $wt && go test -vet=off -count=1 $pkgs > /tmp/evalseed.suite.log 2>&1); rc_suite=$?
   git -C $wt checkout -q -- . && git -C $wt clean -fdq
-  # now against /repo with the harness
-  git -C /repo apply $m/patch.diff || { echo "$prop $name: does not apply to /repo"; continue; }
-  out=$(cd /verif && ./check $prop quick --budget $budget 2>&1); rc_check=$?
-  git -C /repo checkout -q -- .
+  # now with the harness: against /repo itself, or (EVAL_COPY=1) against the scratch worktree
+  # so that /repo stays untouched while other runs use it
+  if [ -n "$EVAL_COPY" ]; then
+    git -C $wt apply $m/patch.diff
+    out=$(cd /verif && VERIF_REPO=$wt ./check $prop quick --budget $budget 2>&1); rc_check=$?
+    git -C $wt checkout -q -- . && git -C $wt clean -fdq
+  else
+    git -C /repo apply $m/patch.diff || { echo "$prop $name: does not apply to /repo"; continue; }
+    out=$(cd /verif && ./check $prop quick --budget $budget 2>&1); rc_check=$?
+    git -C /repo checkout -q -- .
+  fi
   viol=$(echo "$out" | grep -c "^VIOLATION")
   first=$(echo "$out" | grep -A1 "^VIOLATION" | grep oracle= | head -2 | cut -c1-230 | tr '\n' '|')
   echo "$prop $name: build=$rc_build suite=$rc_suite demo_clean=$rc_clean demo_mut=$rc_mut check_rc=$rc_check violations=$viol $first"
